@@ -1228,3 +1228,94 @@ Proof.
     destruct (begin_block_ws k s dt ws I HP Hnd (HPv Hne) WR) as [WR1 HPv1].
     apply IH; [exact I1|exact S1|rewrite HP1; exact HP|exact Hnd|intros _; exact (HPv1 Hne)|exact WR1].
 Qed.
+
+(** ** Part F: the whole checker *)
+Lemma tbl_step k s c : Inv s -> Strict s -> wf_op (to_op k c) -> op_wf k c = true -> Tbl k s -> Tbl k (step s (to_op k c)).
+Proof.
+  intros I S W OW T. destruct (step_inv s _ I S W) as (_ & _ & HP). destruct T as [T1 T2 T3 T4 T5 T6].
+  constructor; auto; [|rewrite HP; exact T6].
+  intros id c' Hg. destruct (get id (st_contracts s)) as [c0|] eqn:Hg0; [exact (T3 _ _ Hg0)|].
+  destruct (created_open_lemma s _ id c' I S W Hg0 Hg) as (_ & _ & _ & m & Eo & ->).
+  destruct c as [idx m'| | |]; cbn [to_op] in Eo; try discriminate. inversion Eo; subst m'.
+  unfold op_wf in OW. apply (proj1 (eqb_true_iff _ _)) in OW. destruct (nthZ_Some _ _ _ OW) as [_ Hn].
+  exact (nth_error_In _ _ Hn).
+Qed.
+
+(** the observations handed to the checker are the projections of the model's own states *)
+Fixpoint trace_ok (k : case) (nd : nat) (s : state) (po : obs) (steps : list (cop * dobs)) : Prop :=
+  match steps with
+  | [] => True
+  | (c, d) :: rest =>
+      let s' := step s (to_op k c) in
+      op_wf k c = true
+      /\ Vw k nd s' (if step_ok s (to_op k c) then 0 else 1) (undiff po d)
+      /\ trace_ok k nd s' (undiff po d) rest
+  end.
+
+Lemma check_from_pass k nd : forall steps s po ws i code0,
+  Inv s -> Strict s -> Tbl k s -> Vw k nd s code0 po -> WsRel k s ws -> PInv k s ->
+  Forall (fun cd : cop * dobs => wf_op (to_op k (fst cd))) steps -> trace_ok k nd s po steps ->
+  check_from k s po ws steps i (mkV (-1) (-1) 0 (-1) 0) = mkV (-1) (-1) 0 (-1) 0.
+Proof.
+  induction steps as [|[c d] rest IH]; intros s po ws i code0 I S T V WR PV WF TR; [reflexivity|].
+  inversion WF as [|? ? W WF']; subst. cbn [fst] in W. destruct TR as (OW & V' & TR').
+  cbn [check_from]. set (o := undiff po d) in *. set (s' := step s (to_op k c)) in *.
+  destruct (step_inv s _ I S W) as (I' & S' & HP').
+  pose proof (tbl_step k s c I S W OW T) as T'. fold s' in T', I', S', HP'.
+  pose proof (Vw_corr _ _ _ _ _ V') as Hcorr.
+  pose proof (p03_step k nd s c po o code0 I S W OW T' V V') as H03.
+  assert (HW : WsRel k s' (match c with
+                           | CAdv dts => wticks k ws dts
+                           | CAdvN n dt => wticks k ws (repeat dt (Z.to_nat n))
+                           | _ => wclaims k po o ws
+                           end) /\ PInv k s').
+  { destruct (step_facts k s (to_op k c) I S W T') as (evs & F).
+    destruct c as [idx m|who idx secret|dts|n dt]; cbn [to_op] in *.
+    - split; [apply (WsRel_msg k nd s (Create m) code0 (if step_ok s (Create m) then 0 else 1) po o ws evs F S W); [intros dts; discriminate|exact V|exact V'|exact WR]|].
+      destruct (msg_win s (Create m) I S W (fun dts => ltac:(discriminate))) as ((_ & Ht & Hp) & _).
+      intros Hne. unfold PrevInv, s'. rewrite Ht, Hp. exact (PV Hne).
+    - split; [apply (WsRel_msg k nd s (Claim who (id_at k idx) secret) code0 (if step_ok s (Claim who (id_at k idx) secret) then 0 else 1) po o ws evs F S W); [intros dts; discriminate|exact V|exact V'|exact WR]|].
+      destruct (msg_win s (Claim who (id_at k idx) secret) I S W (fun dts => ltac:(discriminate))) as ((_ & Ht & Hp) & _).
+      intros Hne. unfold PrevInv, s'. rewrite Ht, Hp. exact (PV Hne).
+    - unfold s', step. cbn [exec]. exact (adv_ws k dts s ws I S (tb_params _ _ T) (tb_pden _ _ T) PV WR).
+    - unfold s', step. cbn [exec]. exact (adv_ws k _ s ws I S (tb_params _ _ T) (tb_pden _ _ T) PV WR). }
+  destruct HW as [WR' PV'].
+  pose proof (p04_state k nd s' _ o _ I' T' V' WR') as H04.
+  rewrite OW, Hcorr, H03, H04. cbn.
+  exact (IH s' o _ (i + 1) _ I' S' T' V' WR' PV' WF' TR').
+Qed.
+
+Definition table_ok (k : case) : Prop :=
+  NoDup (k_ids k) /\ nact_ok k /\ NoDup (map ap_denom (k_params k))
+  /\ forall id, In id (k_ids k) ->
+       (id_sender id < k_nactors k \/ id_sender id = ESC \/ id_sender id = BLK)
+       /\ (id_to id < k_nactors k \/ id_to id = ESC \/ id_to id = BLK)
+       /\ denoms_nonneg (id_amount id).
+
+Definition case_init (k : case) : state := init (k_params k) (bank_of k (k_obs0 k)) (o_time (k_obs0 k)).
+
+Theorem model_passes_check_lemma (k : case) (nd : nat) :
+  hyps_b k = true -> table_ok k ->
+  Vw k nd (case_init k) 0 (k_obs0 k) ->
+  trace_ok k nd (case_init k) (k_obs0 k) (k_steps k) ->
+  check_case_C03 k = (-1, -1, 0) /\ check_case_C04 k = (-1, -1, 0).
+Proof.
+  intros H (T1 & T2 & T3 & T4) V0 TR.
+  destruct (hyps_b_sound k H) as (HP & HE & WF).
+  destruct (init_inv (k_params k) (bank_of k (k_obs0 k)) (o_time (k_obs0 k)) HP HE) as [I0 S0].
+  assert (T0 : Tbl k (case_init k)) by (constructor; auto; intros id c Hg; discriminate).
+  assert (WR0 : WsRel k (case_init k) (map (fun _ => (0, 0)) (k_params k))).
+  { intros p w Hin _. assert (Hp : In p (k_params k)) by exact (in_combine_l _ _ _ _ Hin).
+    assert (Hw : w = (0, 0)).
+    { apply in_combine_r in Hin. apply in_map_iff in Hin. destruct Hin as (? & E & _). congruence. }
+    subst w. destruct (get_param_of_In _ _ Hp) as (p' & Hgp). unfold case_init, init. sproj.
+    rewrite (init_assets _ _ _ Hgp). split; reflexivity. }
+  assert (PV0 : PInv k (case_init k)) by (intros _; reflexivity).
+  assert (WFs : Forall (fun cd : cop * dobs => wf_op (to_op k (fst cd))) (k_steps k)).
+  { unfold case_ops in WF. rewrite Forall_forall in *. intros cd Hin. apply WF. apply in_map_iff. exists cd. auto. }
+  pose proof (check_from_pass k nd (k_steps k) (case_init k) (k_obs0 k) _ 0 0 I0 S0 T0 V0 WR0 PV0 WFs TR) as HC.
+  pose proof (p04_state k nd (case_init k) 0 (k_obs0 k) _ I0 T0 V0 WR0) as H04.
+  pose proof (Vw_corr _ _ _ _ _ V0) as Hc0.
+  unfold check_case_C03, check_case_C04, check_all. fold (case_init k).
+  rewrite Hc0, H, H04. cbn [andb Z.eqb]. rewrite HC. split; reflexivity.
+Qed.
